@@ -1,5 +1,5 @@
 ---------------------------- MODULE MC_Gen_Keys ----------------------------
 EXTENDS Gen_Keys
 S2 == {"a", "b"}
-S3 == {"a", "b", "c"}
+S3 == {"a", "aa", "b"}      \* "aa" starts like "a": segment-wise vs character-wise prefixes differ
 =============================================================================
